@@ -1,5 +1,253 @@
-import GraphrsModel.ObsSP
+/-
+  C04 — Dijkstra returns exactly the shortest distances and shortest paths.
+
+  What is proved here is the soundness of the *checker* that `tools/check.py` runs on the real
+  implementation's answers (and that the model's answers pass as well): the checker computes
+  distances by rounds of relaxation, verifies at run time that they are closed under relaxation,
+  and compares.  The theorems show that an accepted answer satisfies the walk-based statement of
+  C04, for every graph, source and answer - no bound on sizes.
+-/
+import GraphrsModel.Spec.PathCheck
+import GraphrsModel.Lemmas.C04Aux
 namespace Graphrs
-/-- placeholder while the framework is brought up: replaced by the property theorems -/
-theorem C04_popFringe_nil : popFringe [] = none := rfl
+
+/-- every label produced by rounds of relaxation is the cost of a real walk from the source -/
+theorem C04_distFrom_witnessed (arcs : Arcs) (rounds s : Nat) :
+    ∀ v x, alookup (Arcs.distFrom arcs rounds s) v = some x → Walk arcs s v x :=
+  distFrom_witnessed arcs rounds s
+
+/-- the source is labelled, with a label ≤ 0 -/
+theorem C04_distFrom_source (arcs : Arcs) (rounds s : Nat) :
+    ∃ x, alookup (Arcs.distFrom arcs rounds s) s = some x ∧ x ≤ 0 :=
+  distFrom_srcOk arcs rounds s
+
+/-- a labelling closed under relaxation bounds every walk from below -/
+theorem C04_closed_lower_bound (arcs : Arcs) (d : List (Nat × Int)) (s : Nat) (x0 : Int)
+    (hs : alookup d s = some x0) (h0 : x0 ≤ 0) (hc : isClosed arcs d = true) :
+    ∀ v c, Walk arcs s v c → ∃ x, alookup d v = some x ∧ x ≤ c := by
+  intro v c hw
+  induction hw with
+  | nil => exact ⟨x0, hs, h0⟩
+  | snoc hw' ha ih =>
+    obtain ⟨xu, hxu, hle⟩ := ih
+    obtain ⟨dv, hdv, hle2⟩ := isClosed_arc arcs d hc _ _ _ ha xu hxu
+    exact ⟨dv, hdv, by omega⟩
+
+/-- **the certificate theorem**: if the relaxation labelling is closed, it is exactly the
+    shortest-distance function, and exactly the reachable nodes are labelled -/
+theorem C04_certificate_exact (arcs : Arcs) (rounds s : Nat)
+    (hc : isClosed arcs (Arcs.distFrom arcs rounds s) = true) :
+    (∀ v x, alookup (Arcs.distFrom arcs rounds s) v = some x ↔ IsDist arcs s v x) ∧
+    (∀ v, alookup (Arcs.distFrom arcs rounds s) v = none ↔ ¬ Reachable arcs s v) := by
+  obtain ⟨x0, hs, h0⟩ := C04_distFrom_source arcs rounds s
+  have hlb := C04_closed_lower_bound arcs _ s x0 hs h0 hc
+  have hwit := C04_distFrom_witnessed arcs rounds s
+  refine ⟨fun v x => ⟨fun hx => ⟨hwit v x hx, fun c hw => ?_⟩, fun hd => ?_⟩, fun v => ⟨fun hn hr => ?_, fun hnr => ?_⟩⟩
+  · obtain ⟨x', hx', hle⟩ := hlb v c hw
+    rw [hx] at hx'; cases hx'; exact hle
+  · obtain ⟨x', hx', hle⟩ := hlb v x hd.1
+    have := hd.2 x' (hwit v x' hx')
+    have e : x' = x := by omega
+    rw [← e]; exact hx'
+  · obtain ⟨c, hw⟩ := hr
+    obtain ⟨x', hx', _⟩ := hlb v c hw
+    rw [hn] at hx'; cases hx'
+  · cases hv : alookup (Arcs.distFrom arcs rounds s) v with
+    | none => rfl
+    | some x => exact absurd ⟨x, hwit v x hv⟩ hnr
+
+/-- a node list that `walkCost` accepts is a real walk of that cost between its endpoints -/
+theorem C04_walkCost_walk (arcs : Arcs) :
+    ∀ (p : List Nat) (c : Int), Arcs.walkCost arcs p = some c →
+      ∃ a b, p.head? = some a ∧ p.getLast? = some b ∧ Walk arcs a b c := by
+  intro p
+  induction p with
+  | nil => intro c h; simp [Arcs.walkCost] at h
+  | cons x rest ih =>
+    cases rest with
+    | nil =>
+      intro c h
+      simp [Arcs.walkCost] at h
+      subst h
+      exact ⟨x, x, by simp, by simp, Walk.nil x⟩
+    | cons y rest =>
+      intro c h
+      unfold Arcs.walkCost at h
+      simp only at h
+      split at h
+      · cases h
+      · rename_i c0 cs' hcs
+        cases hrec : Arcs.walkCost arcs (y :: rest) with
+        | none => simp [hrec] at h
+        | some c' =>
+          simp only [hrec, Option.map_some, Option.some.injEq] at h
+          obtain ⟨a, b, ha, hb, hw⟩ := ih c' hrec
+          simp at ha
+          subst ha
+          have hmem := foldl_min_mem cs' c0
+          rw [← hcs] at hmem
+          simp only [List.mem_map, List.mem_filter] at hmem
+          obtain ⟨arc, ⟨harc, hcond⟩, hbest⟩ := hmem
+          obtain ⟨a1, a2, a3⟩ := arc
+          simp at hcond hbest
+          obtain ⟨e1, e2⟩ := hcond
+          subst e1 e2
+          refine ⟨a1, b, by simp, ?_, ?_⟩
+          · rw [List.getLast?_cons_cons]; exact hb
+          · rw [← h, ← hbest]
+            exact Walk.cons' harc hw
+
+
+private theorem bnot_not (b : Bool) (h : ¬ (!b) = true) : b = true := by
+  cases b <;> simp at h ⊢
+
+private theorem not_true_false (b : Bool) (h : ¬ b = true) : b = false := by
+  cases b <;> simp at h ⊢
+
+/-- what acceptance by the checker means, clause by clause -/
+theorem check_none_facts (nodes : List Nat) (arcs : Arcs) (q : SPQuery)
+    (ans : List (Nat × Int × List (List Nat)))
+    (h : checkSingleSource nodes arcs q ans = none) :
+    let d := Arcs.distFrom arcs nodes.length q.source
+    let within : Int → Bool := fun x =>
+      match q.cutoff2 with | none => true | some c => decide (2 * x ≤ c)
+    isClosed arcs d = true ∧
+    (ans.any fun r => alookup d r.1 != some r.2.1 || !within r.2.1) = false ∧
+    (match q.target with
+      | none => ((d.filter fun kv => within kv.2).map (·.1)).all (ans.map (·.1)).contains
+      | some t => !((d.filter fun kv => within kv.2).map (·.1)).contains t ||
+          (ans.map (·.1)).contains t) = true ∧
+    (q.withPaths = false → (ans.any fun r => !r.2.2.isEmpty) = false) ∧
+    (q.withPaths = true →
+      (ans.any fun r => r.2.2.any fun p =>
+        p.head? != some q.source || p.getLast? != some r.1 ||
+          Arcs.walkCost arcs p != some r.2.1) = false ∧
+      (q.firstOnly = true → (ans.any fun r => r.2.2.length != 1) = false)) := by
+  unfold checkSingleSource at h
+  extract_lets n d positive within reachable keys badDist complete badPath relevant bad at h
+  intro d' within'
+  by_cases h1 : (!isClosed arcs d) = true
+  · rw [if_pos h1] at h; cases h
+  rw [if_neg h1] at h
+  by_cases h2 : (keys.length != (dedup keys).length) = true
+  · rw [if_pos h2] at h; cases h
+  rw [if_neg h2] at h
+  by_cases h3 : (keys.any fun k => !nodes.contains k) = true
+  · rw [if_pos h3] at h; cases h
+  rw [if_neg h3] at h
+  by_cases h4 : badDist = true
+  · rw [if_pos h4] at h; cases h
+  rw [if_neg h4] at h
+  by_cases h5 : (!complete) = true
+  · rw [if_pos h5] at h; cases h
+  rw [if_neg h5] at h
+  refine ⟨bnot_not _ h1, not_true_false _ h4, bnot_not _ h5, ?_, ?_⟩
+  · intro hp
+    have c6 : (!q.withPaths) = true := by rw [hp]; rfl
+    rw [if_pos c6] at h
+    by_cases h6 : (ans.any fun r => !r.2.2.isEmpty) = true
+    · rw [if_pos h6] at h; cases h
+    · exact not_true_false _ h6
+  · intro hp
+    have c6 : ¬ (!q.withPaths) = true := by rw [hp]; simp
+    rw [if_neg c6] at h
+    by_cases h7 : badPath = true
+    · rw [if_pos h7] at h; cases h
+    rw [if_neg h7] at h
+    refine ⟨not_true_false _ h7, ?_⟩
+    intro hf
+    rw [if_pos hf] at h
+    by_cases h8 : (relevant.any fun r => r.2.2.length != 1) = true
+    · rw [if_pos h8] at h; cases h
+    · exact not_true_false _ h8
+
+private theorem within_iff (q : SPQuery) (x : Int) :
+    (match q.cutoff2 with | none => true | some c => decide (2 * x ≤ c)) = true ↔
+    (match q.cutoff2 with | none => True | some c => 2 * x ≤ c) := by
+  cases q.cutoff2 <;> simp
+
+private theorem reported_of_dist (arcs : Arcs) (rounds s : Nat) (within : Int → Bool) (t : Nat) (x : Int)
+    (hx : alookup (Arcs.distFrom arcs rounds s) t = some x) (hw : within x = true) :
+    t ∈ ((Arcs.distFrom arcs rounds s).filter fun kv => within kv.2).map (·.1) := by
+  rw [List.mem_map]
+  exact ⟨(t, x), List.mem_filter.2 ⟨alookup_mem _ _ _ hx, hw⟩, rfl⟩
+
+/-- **soundness of the checker (distances)**: an accepted answer reports only exact shortest
+    distances, within the cutoff, and - when no target is given - every reachable node within the
+    cutoff is reported -/
+theorem C04_check_sound_dist (nodes : List Nat) (arcs : Arcs) (q : SPQuery)
+    (ans : List (Nat × Int × List (List Nat)))
+    (h : checkSingleSource nodes arcs q ans = none) :
+    (∀ r ∈ ans, IsDist arcs q.source r.1 r.2.1 ∧
+        (match q.cutoff2 with | none => True | some c => 2 * r.2.1 ≤ c)) ∧
+    (q.target = none → ∀ t x, IsDist arcs q.source t x →
+        (match q.cutoff2 with | none => True | some c => 2 * x ≤ c) → t ∈ ans.map (·.1)) ∧
+    (∀ t, q.target = some t → ∀ x, IsDist arcs q.source t x →
+        (match q.cutoff2 with | none => True | some c => 2 * x ≤ c) → t ∈ ans.map (·.1)) := by
+  obtain ⟨hcl, hbd, hcomp, _, _⟩ := check_none_facts nodes arcs q ans h
+  have hcert := (C04_certificate_exact arcs nodes.length q.source hcl).1
+  rw [List.any_eq_false] at hbd
+  refine ⟨fun r hr => ?_, fun ht t x hd hw => ?_, fun t ht x hd hw => ?_⟩
+  · have := hbd r hr
+    simp only [Bool.or_eq_true, not_or, bne_iff_ne, ne_eq, Decidable.not_not,
+      Bool.not_eq_true', Bool.not_eq_false] at this
+    exact ⟨(hcert _ _).1 this.1, (within_iff q _).1 (by simpa using this.2)⟩
+  · simp only [ht] at hcomp
+    rw [List.all_eq_true] at hcomp
+    have hm := reported_of_dist arcs nodes.length q.source
+      (fun x => match q.cutoff2 with | none => true | some c => decide (2 * x ≤ c)) t x ((hcert t x).2 hd)
+      ((within_iff q x).2 hw)
+    have := hcomp t hm
+    simpa using this
+  · simp only [ht] at hcomp
+    have hm := reported_of_dist arcs nodes.length q.source
+      (fun x => match q.cutoff2 with | none => true | some c => decide (2 * x ≤ c)) t x ((hcert t x).2 hd)
+      ((within_iff q x).2 hw)
+    rw [Bool.or_eq_true] at hcomp
+    rcases hcomp with hc | hc
+    · rw [Bool.not_eq_true', ← Bool.not_eq_true] at hc
+      exact absurd (List.contains_iff_mem.2 hm) hc
+    · simpa using hc
+
+/-- **soundness of the checker (paths)**: with `with_paths`, every returned path starts at the
+    source, ends at its target and is a walk whose cost is the (shortest) distance; with
+    `first_only` exactly one path is returned per reported node -/
+theorem C04_check_sound_paths (nodes : List Nat) (arcs : Arcs) (q : SPQuery)
+    (ans : List (Nat × Int × List (List Nat)))
+    (h : checkSingleSource nodes arcs q ans = none) (hp : q.withPaths = true) :
+    (∀ r ∈ ans, ∀ p ∈ r.2.2, p.head? = some q.source ∧ p.getLast? = some r.1 ∧
+        Walk arcs q.source r.1 r.2.1 ∧ Arcs.walkCost arcs p = some r.2.1) ∧
+    (q.firstOnly = true → ∀ r ∈ ans, r.2.2.length = 1) := by
+  obtain ⟨_, _, _, _, hpaths⟩ := check_none_facts nodes arcs q ans h
+  obtain ⟨hbp, hfo⟩ := hpaths hp
+  have hd := (C04_check_sound_dist nodes arcs q ans h).1
+  rw [List.any_eq_false] at hbp
+  refine ⟨fun r hr p hpm => ?_, fun hf r hr => ?_⟩
+  · have := hbp r hr
+    rw [Bool.not_eq_true, List.any_eq_false] at this
+    have := this p hpm
+    simp only [Bool.or_eq_true, not_or, bne_iff_ne, ne_eq, Decidable.not_not] at this
+    exact ⟨this.1.1, this.1.2, (hd r hr).1.1, this.2⟩
+  · have := hfo hf
+    rw [List.any_eq_false] at this
+    simpa using this r hr
+
+/-- without `with_paths` the path lists are empty -/
+theorem C04_check_sound_nopaths (nodes : List Nat) (arcs : Arcs) (q : SPQuery)
+    (ans : List (Nat × Int × List (List Nat)))
+    (h : checkSingleSource nodes arcs q ans = none) (hp : q.withPaths = false) :
+    ∀ r ∈ ans, r.2.2 = [] := by
+  obtain ⟨_, _, _, hnp, _⟩ := check_none_facts nodes arcs q ans h
+  have := hnp hp
+  rw [List.any_eq_false] at this
+  intro r hr
+  simpa using this r hr
+
+/-- non-vacuity: the checker accepts the correct answer on a small weighted digraph with a tie -/
+example :
+    checkSingleSource [1, 2, 3, 4] [(1, 2, 1), (1, 3, 1), (2, 4, 1), (3, 4, 1)]
+      ⟨true, 1, none, none, false, true⟩
+      [(1, 0, [[1]]), (2, 1, [[1, 2]]), (3, 1, [[1, 3]]), (4, 2, [[1, 2, 4], [1, 3, 4]])] = none := by
+  decide
+
 end Graphrs
